@@ -560,32 +560,61 @@ func Boot(p *Persist, armAt int) (n *PNode, crashed *CrashSignal, err error) {
 	ccfg := cfg.TestConsensusConfig()
 	ccfg.SkipTimeoutCommit = false
 	ccfg.SetWalFile(p.walFile())
-	n.CS = consensus.NewState(ccfg, state, exec, n.BlockStore, mp, sm.EmptyEvidencePool{})
-	n.CS.SetLogger(n.logger)
-	pv := privval.LoadFilePV(p.keyFile(), p.stateFile())
-	n.CS.SetPrivValidator(&journalPV{pv: pv, n: n})
-	n.CS.SetEventBus(n.Bus)
-	n.Ticker = consensus.NewVerifTicker()
-	n.CS.SetTimeoutTicker(n.Ticker)
-	// open the WAL ourselves so that the crash-injecting wrapper is in place before Start() (catch-up replay and the
-	// receive routine then already write through it); OnStart only opens the WAL when none is set
-	realWAL, err := n.CS.OpenWAL(p.walFile())
-	if err != nil {
-		return n, nil, fmt.Errorf("open wal: %w", err)
+	// mkCS builds a consensus State over the stores and starts it. The WAL is opened here, not by OnStart, so that the
+	// crash-injecting wrapper is in place before Start() (catch-up replay and the receive routine then already write
+	// through it); OnStart only opens the WAL when none is set.
+	mkCS := func(st sm.State) error {
+		n.CS = consensus.NewState(ccfg, st, exec, n.BlockStore, mp, sm.EmptyEvidencePool{})
+		n.CS.SetLogger(n.logger)
+		pv := privval.LoadFilePV(p.keyFile(), p.stateFile())
+		n.CS.SetPrivValidator(&journalPV{pv: pv, n: n})
+		n.CS.SetEventBus(n.Bus)
+		n.Ticker = consensus.NewVerifTicker()
+		n.CS.SetTimeoutTicker(n.Ticker)
+		realWAL, err := n.CS.OpenWAL(p.walFile())
+		if err != nil {
+			return fmt.Errorf("open wal: %w", err)
+		}
+		n.WAL = &walWrap{WAL: realWAL, c: n.C, headPath: p.walFile(), cs: n.CS, tokenRes: make(chan bool, 4)}
+		n.WAL.HeadSynced = n.WAL.stat()
+		n.CS.VerifSetWAL(n.WAL)
+		if err := n.CS.Start(); err != nil {
+			return fmt.Errorf("consensus start: %w", err)
+		}
+		return nil
 	}
-	n.WAL = &walWrap{WAL: realWAL, c: n.C, headPath: p.walFile(), cs: n.CS, tokenRes: make(chan bool, 4)}
-	n.WAL.HeadSynced = n.WAL.stat()
-	n.CS.VerifSetWAL(n.WAL)
-	if err := n.CS.Start(); err != nil {
-		return n, nil, fmt.Errorf("consensus start: %w", err)
+	if err := mkCS(state); err != nil {
+		return n, nil, err
 	}
 	n.started = true
 	if n.CS.VerifWAL() != consensus.WAL(n.WAL) {
-		// the start-up repair path replaced the WAL (corrupted file): wrap the new one
+		// The start-up repair path replaced the WAL object (corrupted file): this State now logs to a WAL the wrapper
+		// does not see, and swapping it under the running receive routine would be a data race. So this State is
+		// stopped again - an operator restarting twice - and a second one is started over the repaired log.
 		n.Repaired = true
-		n.WAL = &walWrap{WAL: n.CS.VerifWAL(), c: n.C, headPath: p.walFile(), cs: n.CS, tokenRes: make(chan bool, 4)}
-		n.WAL.HeadSynced = n.WAL.stat()
-		n.CS.VerifSetWAL(n.WAL)
+		n.CS.Stop() //nolint
+		select {
+		case <-n.CS.VerifDone():
+		case <-time.After(3 * time.Minute):
+			return n, nil, fmt.Errorf("VERIF-INFRA: consensus routine did not stop after the WAL repair")
+		}
+		if sig := n.C.Hit; sig != nil {
+			// the injected crash fell into the short life of the first State
+			n.halt()
+			return n, sig, nil
+		}
+		st2, err := n.StateStore.Load()
+		if err != nil {
+			return n, nil, err
+		}
+		n.started = false // an injected crash inside the second Start() leaves a State whose routine never ran
+		if err := mkCS(st2); err != nil {
+			return n, nil, err
+		}
+		n.started = true
+		if n.CS.VerifWAL() != consensus.WAL(n.WAL) {
+			return n, nil, fmt.Errorf("the WAL needed a repair again right after it had been repaired: %v", n.Errors())
+		}
 	}
 	// let the receive routine finish what the catch-up replay queued (the node's own re-signed messages)
 	if !n.barrier() {
